@@ -47,6 +47,14 @@ pub fn run(ctx: &Ctx) -> Outcome {
         duo_part(ctx, &mut out, scn, dev, ctx.tier.pick(60_000, 6_000_000));
     }
     out.merge(mtu_family(ctx));
+    // the bytes on the wire, per sequence number, in every state of the retransmission and probing drivers
+    {
+        use super::solo_drivers::*;
+        run_and_report(ctx, &rtx(ctx.tier, 5, true, ctx.tier.pick(6, 8)), &mut out);
+        run_and_report(ctx, &mtu(ctx.tier, 700, Some(600), None, 1, ctx.tier.pick(6, 8)), &mut out);
+        run_and_report(ctx, &mtu(ctx.tier, 700, None, Some(620), 1, ctx.tier.pick(6, 8)), &mut out);
+        run_and_report(ctx, &rx(ctx.tier, 4, vec![MSS, 1], ctx.tier.pick(6, 8)), &mut out);
+    }
     out.rule = "C01: fault plans enumerated by iterative deviation bounding over generated scenarios; distinct_nontrivial = executions with a distinct (timed) datagram+application trace".into();
     out.assumptions.push("payload is position-coded (period 251 with carry), so a wrong offset, duplicate or swap is visible in the data".into());
     out.assumptions.push("applications and sockets run on one seeded current-thread runtime under tokio's paused clock; sub-poll thread interleavings are not explored".into());
